@@ -38,6 +38,9 @@ fn judge(ctx: &mut Ctx, name: &str, label: &str, d: &dyn Fn() -> String, got: Re
                 None => {
                     ctx.count(&format!("ok.{name}"));
                     if g.iter().any(|v| v.is_some()) {
+                        if g.len() > 3 {
+                            ctx.sample(|| format!("{} -> {g:?} equals the positional definition", d()));
+                        }
                         ctx.distinct(&format!("{name}|{label}|{}|{}", g.len(), d().len() % 211));
                     }
                 },
